@@ -26,10 +26,23 @@ ALGO_FOR = {"constraints_hypergraph": "dsa", "factor_graph": "maxsum", "pseudotr
 CAPACITY_AWARE = {"adhoc", "gh_cgdp", "heur_comhost", "ilp_compref", "oilp_cgdp", "ilp_fgdp"}
 
 
-def cbc_shim(mod):
+def cbc_shim(mod, gives_up=False):
     import pulp
     if hasattr(mod, "GLPK_CMD"):
-        mod.GLPK_CMD = lambda *a, **k: pulp.PULP_CBC_CMD(msg=False, timeLimit=20)
+        if gives_up:
+            # what PuLP reports when the solver stops on its limit without any incumbent
+            class StoppedWithoutSolution(pulp.LpSolver):
+                name = "STOPPED_STUB"
+
+                def available(self):
+                    return True
+
+                def actualSolve(self, lp, **kwargs):
+                    lp.assignStatus(pulp.LpStatusNotSolved, pulp.LpSolutionNoSolutionFound)
+                    return pulp.LpStatusNotSolved
+            mod.GLPK_CMD = lambda *a, **k: StoppedWithoutSolution()
+        else:
+            mod.GLPK_CMD = lambda *a, **k: pulp.PULP_CBC_CMD(msg=False, timeLimit=20)
 
 
 def problem(inst, dep, graph, hints_on, explicit_zero=False, asym=False):
@@ -61,9 +74,9 @@ def problem(inst, dep, graph, hints_on, explicit_zero=False, asym=False):
     return dcop, cg, agents, names, comps, mem, load, must, fp
 
 
-def call(method, cg, agents, must, mem, load):
+def call(method, cg, agents, must, mem, load, gives_up=False):
     mod = importlib.import_module("pydcop.distribution." + method)
-    cbc_shim(mod)
+    cbc_shim(mod, gives_up)
     hints = DistributionHints(must_host={a: list(cs) for a, cs in must.items()}) if must else None
     try:
         kw = dict(hints=hints, computation_memory=mem, communication_load=load)
@@ -87,7 +100,7 @@ def run(tier):
     counts = collections.Counter()
     for inst in insts:
         for nag in ((2, 3) if quick else (1, 2, 3, 4)):
-            deps, dres = CC.generate("Gen_C25", consts=dict(NAg=nag, NComp=8, NCases=2 if quick else 4, Caps={2, 5, 12, 40, 1000}, Ks={1, 2}),
+            deps, dres = CC.generate("Gen_C25", consts=dict(NAg=nag, NComp=8, NCases=2 if quick else 4, Caps={0, 2, 5, 12, 40, 1000}, Ks={1, 2}),
                                      workers=2, seed=seed() + nag * 10 + len(inst["vars"]))
             v.add_tlc(dres, "agent sets (Gen_C25, %d agents)" % nag)
             for dep in deps:
@@ -158,6 +171,21 @@ def run(tier):
                     meta[rec["id"]] = {"method": "adhoc", "graph": graph, "hints": True, "inst": inst, "dep": {"must": must, "caps": caps, "random_seed": 1000 * sd + len(recs)},
                                        "msg": mapping.get("_msg", [""])[0], "default_hosting_cost_zero": True, "stratum": "hints"}
                     recs.append(rec)
+    #  - "solver gives up": the ILP methods with a solver that stops without any solution (PuLP status 'not solved'): the outcome must
+    #    still be a valid mapping or a declared impossibility / timeout
+    for inst in insts[:4 if quick else len(insts)]:
+        for method, graph in (("oilp_cgdp", "constraints_hypergraph"), ("ilp_compref", "constraints_hypergraph"), ("ilp_fgdp", "factor_graph"), ("oilp_cgdp", "factor_graph")):
+            base = {"nag": 2, "cap": [1000, 1000], "route": [[1, 2], [2, 1]], "hosting": [[3], [8]], "place": [1], "k": 2}
+            dcop, cg, agents, names, comps, mem, load, _, fp = problem(inst, base, graph, False)
+            scale = 1 if all(float(x) == int(x) for x in fp.values()) else 1000
+            outcome, mapping = call(method, cg, agents, {}, mem, load, gives_up=True)
+            counts[method + ":gives_up:" + outcome] += 1
+            rec = {"id": len(recs), "comps": comps, "agents": names, "cap": {a: 1000 * scale for a in names},
+                   "fp": {c: int(math.ceil(float(x) * scale)) for c, x in fp.items()}, "must": {}, "outcome": outcome,
+                   "mapping": {a: cs for a, cs in mapping.items() if not a.startswith("_")}, "capacityAware": True}
+            meta[rec["id"]] = {"method": method, "graph": graph, "hints": False, "inst": inst, "dep": {"solver": "stops without solution"},
+                               "msg": mapping.get("_msg", [""])[0], "default_hosting_cost_zero": False, "stratum": "solver_gives_up"}
+            recs.append(rec)
     #  - "packing": synthetic, heterogeneous footprints (1, 1, 6, 3, 3, ...: a distribution method takes the footprint function
     #    as an argument) on two agents whose capacities only fit well-chosen halves, one small must_host computation on each:
     #    attempts fail and are retried depending on the shuffle
@@ -206,7 +234,7 @@ def run(tier):
     v.cov["outcomes_by_method"] = dict(counts)
     v.cov["exhaustive"] = False
     v.cov["rule"] = ("DCOPs over 8 shapes as constraints hyper-graph, factor graph and pseudo-tree; TLC-drawn agent sets (2-3 quick / 1-4 agents; capacities "
-                     "{2,5,12,40,1000}; hosting costs {0,3,8} with default 0 or 4; symmetric routes), with and without a must_host hint; each method called "
+                     "{0,2,5,12,40,1000}; hosting costs {0,3,8} with default 0 or 4; symmetric routes), with and without a must_host hint; each method called "
                      "on the graph models it supports with the algorithm's own footprint / load functions; plus a 'pinned' stratum (explicit hosting cost 0 for "
                      "2-3 computations on one agent whose capacity is just below / at / above their footprints) and a 'hints' stratum (three must_host "
                      "hints over two agents with just-fitting capacities, adhoc under several seeds) and a 'packing' stratum (synthetic footprints 1,1,6,3,3,.. "
